@@ -8,15 +8,18 @@ import (
 	"fmt"
 	"io"
 	"net/http"
+	"os"
 	"strings"
 	"testing"
 	"time"
 
 	"github.com/lesismal/nbio"
 	"github.com/lesismal/nbio/logging"
+	"github.com/lesismal/nbio/mempool"
 	"github.com/lesismal/nbio/nbhttp"
 
 	"verif/harness/common"
+	"verif/harness/stream"
 	"verif/sim/kernel"
 	simrt "verif/sim/rt"
 	ssync "verif/sim/shim/sync"
@@ -36,6 +39,7 @@ type ReqPlan struct {
 	SleepUs  int    `json:"sleep_us,omitempty"` // handler sleeps (simulated time)
 	Flush    bool   `json:"flush,omitempty"`   // handler flushes in the middle of the body
 	Yields   int    `json:"yields,omitempty"`
+	SplitCL  bool   `json:"split_cl,omitempty"` // handler announces Content-Length, then writes a few bytes and the rest separately
 }
 
 // ClientPlan is one client connection.
@@ -55,6 +59,9 @@ type HTTPCase struct {
 	Pool    int           `json:"pool"` // MessageHandlerPoolSize (0: inline executor)
 	MaxBlocking int       `json:"max_blocking,omitempty"`
 	Conns   []ClientPlan  `json:"conns"`
+	Track   bool          `json:"track,omitempty"` // C11: ownership-tracking allocators instead of the real pools
+	Side    string        `json:"side,omitempty"` // "" (server clauses) | client (client clause, see client.go)
+	Cli     *CliPlan      `json:"cli,omitempty"`
 }
 
 func closes(rp ReqPlan) bool {
@@ -65,7 +72,15 @@ func closes(rp ReqPlan) bool {
 	return rp.Proto == "HTTP/1.0" && c != "keep-alive"
 }
 
-func genHTTPCase(r *simrt.Rand, tier string) *HTTPCase {
+func genHTTPCase(r *simrt.Rand, tier string, idx int) *HTTPCase {
+	c := genHTTPServerCase(r, tier)
+	if idx%4 == 3 {
+		genCliPlan(r, c)
+	}
+	return c
+}
+
+func genHTTPServerCase(r *simrt.Rand, tier string) *HTTPCase {
 	c := &HTTPCase{Sched: common.GenSched(r, 300000)}
 	c.Sched.TimeJumpMaxUs = 10000 // a stalled node, not an hour-long pause that lets idle timeouts fire mid-request
 	c.K = kernel.DefaultParams()
@@ -109,6 +124,7 @@ func genHTTPCase(r *simrt.Rand, tier string) *HTTPCase {
 				rp.Flush = false
 			}
 			rp.Yields = r.Pick(0, 0, 2)
+			rp.SplitCL = !rp.Flush && rp.Resp > 16 && r.Bool(0.25)
 			cp.Reqs = append(cp.Reqs, rp)
 		}
 		c.Conns = append(c.Conns, cp)
@@ -118,6 +134,9 @@ func genHTTPCase(r *simrt.Rand, tier string) *HTTPCase {
 
 func shrinkHTTP(ci interface{}) []interface{} {
 	c := ci.(*HTTPCase)
+	if c.Side == "client" {
+		return shrinkCli(c)
+	}
 	cp := func() *HTTPCase {
 		x := *c
 		x.Conns = nil
@@ -248,7 +267,48 @@ func newEngine(iomod, mode string, npoller, pool, maxBlocking int, handler http.
 	} else {
 		conf.MessageHandlerPoolSize = pool
 	}
+	if trackBody != nil {
+		conf.BodyAllocator = trackBody
+	}
+	if iomod == "std" {
+		// the engine only lends its pools and timers: connections come from a std-style server
+		conf.Addrs = nil
+		conf.IOMod = nbhttp.IOModBlocking
+	}
 	return nbhttp.NewEngine(conf)
+}
+
+// trackBody, when set, is the body allocator of the engines newEngine builds (C11 runs).
+var trackBody mempool.Allocator
+
+// tracking installs ownership-tracking allocators for one run and returns the function
+// that removes them and reports what they saw.
+func tracking(on bool) func(o *common.Outcome, prop string) {
+	if !on {
+		return func(*common.Outcome, string) {}
+	}
+	pool := stream.NewTracker("mempool.DefaultMemPool", false)
+	body := stream.NewTracker("BodyAllocator", false)
+	old := mempool.DefaultMemPool
+	mempool.DefaultMemPool = pool
+	trackBody = body
+	return func(o *common.Outcome, prop string) {
+		mempool.DefaultMemPool = old
+		trackBody = nil
+		v := append(pool.Finish(), body.Finish()...)
+		o.ProbeN("buffers_freed", pool.Frees+body.Frees)
+		if len(v) == 0 {
+			return
+		}
+		if prop == "C11" {
+			if o.V == nil || o.V.Oracle != "buffer-ownership" {
+				o.V = nil
+				o.Fail("buffer-ownership", stream.OwnershipClass(v[0]), "%s", v[0])
+			}
+		} else {
+			o.Probe("other_property_oracle_fired:C11:buffer-ownership")
+		}
+	}
 }
 
 type clientState struct {
@@ -260,8 +320,20 @@ type clientState struct {
 	written int // requests fully written
 }
 
-func runHTTP(t *testing.T, ci interface{}, trace bool) *common.Outcome {
+func runHTTP(t *testing.T, ci interface{}, trace bool) *common.Outcome { return runHTTPAs(t, ci, trace, "C10") }
+
+func runHTTPAs(t *testing.T, ci interface{}, trace bool, prop string) *common.Outcome {
 	c := ci.(*HTTPCase)
+	if c.Side == "client" {
+		return runHTTPClient(t, c, trace)
+	}
+	untrack := tracking(c.Track)
+	o := runHTTPServer(t, c, trace)
+	untrack(o, prop)
+	return o
+}
+
+func runHTTPServer(t *testing.T, c *HTTPCase, trace bool) *common.Outcome {
 	o := &common.Outcome{}
 	var logs []string
 	var k *kernel.Kernel
@@ -315,7 +387,14 @@ func runHTTP(t *testing.T, ci interface{}, trace bool) *common.Outcome {
 			}
 			w.Header().Set("X-Id", id)
 			data := keyed(id+"/resp", rp.Resp)
-			if rp.Flush && len(data) > 1 {
+			if rp.SplitCL && len(data) > 16 {
+				w.Header().Set("Content-Length", fmt.Sprint(len(data)))
+				w.Write(data[:10])
+				for y := 0; y < rp.Yields; y++ {
+					simrt.Yield()
+				}
+				w.Write(data[10:])
+			} else if rp.Flush && len(data) > 1 {
 				w.Write(data[:len(data)/2])
 				if f, ok := w.(http.Flusher); ok {
 					f.Flush()
@@ -527,6 +606,9 @@ func runHTTP(t *testing.T, ci interface{}, trace bool) *common.Outcome {
 	for _, l := range logs {
 		if strings.Contains(l, "failed:") && strings.Contains(l, "goroutine ") {
 			o.Probe("recovered_panic_logged")
+			if os.Getenv("VERIF_DEBUG_LOGS") != "" {
+				fmt.Fprintf(os.Stderr, "LOGGED PANIC: %s\n", l)
+			}
 		}
 	}
 	return o
@@ -559,6 +641,9 @@ func head(b []byte, n int) string {
 // excludeHTTP implements the trigger exclusion of open known findings.
 func excludeHTTP(ci interface{}, open map[string]bool) bool {
 	c := ci.(*HTTPCase)
+	if c.Side == "client" {
+		return false
+	}
 	if open["S40"] && c.Pool == 0 && c.IOMod != "blocking" {
 		for _, cn := range c.Conns {
 			for _, rp := range cn.Reqs {
